@@ -28,6 +28,26 @@ pub fn corpus() -> Vec<(String, Case)> {
     }
     // folding, S3, token, rich path/query
     let now = e2e::base_instant();
+    // refusals that stop half-way through an element (whatever partial work they did must leave no trace)
+    for (name, path, query, body) in [
+        ("poison:query-value-tail", "/", Some("Action=ListUsers%zz&b=2"), None),
+        ("poison:query-key-tail", "/", Some("Act%zzion=1"), None),
+        ("poison:query-trailing-percent", "/", Some("k=abc%"), None),
+        ("poison:path-tail", "/abc%zz/def", Some("k=v"), None),
+        ("poison:form-body-tail", "/", Some("k=v"), Some("a=1&Action=ListUsers%zz")),
+    ] {
+        let mut p = e2e::base_plan(Carrier::Header);
+        p.wire_path = Some(path.to_string());
+        p.wire_query = query.map(|q: &str| q.to_string());
+        let mut cfg = Cfg::basic(now);
+        if let Some(b) = body {
+            p.method = "POST".into();
+            p.body = b.as_bytes().to_vec();
+            p.headers.push(("Content-Type".into(), b"application/x-www-form-urlencoded".to_vec()));
+            cfg.fold = true;
+        }
+        out.push((name.to_string(), Case { wire: WireReq::from_wire(&build(&p).wire), cfg, prov: ProvSpec::standard() }));
+    }
     for carrier in [Carrier::Header, Carrier::Query] {
         let mut p = e2e::base_plan(carrier);
         p.method = "POST".into();
